@@ -7,6 +7,7 @@ Pipeline   Src -> [Tap pre] -> Cache c1 -> [Tap mid] -> [Cache c2] -> [Tap post]
 """
 from __future__ import print_function
 
+import copy
 import gc
 import json
 import os
@@ -48,36 +49,59 @@ class Unpicklable(object):
 
 class Src(object):
     """Instrumented source: counts the values pulled from it; may raise instead of value number `crash`,
-    or deliver an unpicklable object as value number `bad`."""
+    or deliver an unpicklable object as value number `bad`.
 
-    def __init__(self, style="int"):
+    avals / codes: the abstract values of the flow and their value codes (Cache.tla: FRESH - a value of its own in
+    the style of the history; DUP - the SAME object as the value before it, yielded once more; k >= 0 - the special
+    value number k of the history's set of special values, the same wherever it occurs)."""
+
+    def __init__(self, style="int", specials=0):
         self.pulled = 0
         self.avals = []
+        self.codes = []
         self.crash = None
         self.bad = None
         self.style = style
+        self.specials = SPECIAL_SETS[specials % len(SPECIAL_SETS)]
         self.exc = "exc"       # kind of the exception raised at `crash` / by the unpicklable value
 
     def __call__(self):
-        avals, crash, bad, style = list(self.avals), self.crash, self.bad, self.style
+        for x in self._gen(list(self.avals), list(self.codes), self.crash, self.bad, True):
+            yield x
+
+    def preview(self, avals, codes):
+        """The flow as the consumer of the source sees it: a snapshot of every value at the moment it is yielded."""
+        return [copy.deepcopy(x) for x in self._gen(list(avals), list(codes), None, None, False)]
+
+    def _gen(self, avals, codes, crash, bad, count):
+        style = self.style
         # aliasing upstreams: ONE context dict updated in place for every value / ONE growing list
         # (legal for a lazy flow: each value is consumed before the next one is produced)
         shared_ctx, shared_list = {}, []
-        for i, a in enumerate(avals, 1):
+        last = None
+        for i, (a, code) in enumerate(zip(avals, codes), 1):
             if crash == i:
                 raise make_exc(self.exc, "src")
-            self.pulled += 1
+            if count:
+                self.pulled += 1
             if bad == i:
                 yield Unpicklable(self.exc)
+                continue
+            if code == DUP and i > 1:
+                x = last                      # the same object once more, unchanged
+            elif 0 <= a < 100:
+                x = copy.deepcopy(self.specials[a])
             elif style == "alias_ctx":
                 shared_ctx["cur"] = a
                 shared_ctx.setdefault("seen", []).append(a)
-                yield (a, shared_ctx)
+                x = (a, shared_ctx)
             elif style == "alias_list":
                 shared_list.append(a)
-                yield shared_list
+                x = shared_list
             else:
-                yield enc(a, style)
+                x = enc(a, style)
+            last = x
+            yield x
 
 
 class Tap(object):
@@ -97,16 +121,53 @@ class Tap(object):
             yield (self.name, x)
 
 
+FRESH, DUP = -1, -2
+
+
+def abstract(codes, ver):
+    """Value codes of data version ver -> abstract values (Cache.tla Val): a special value is its code k (0..99),
+    a DUP the value before it, a FRESH value 100 * ver + position."""
+    out = []
+    for i, k in enumerate(codes, 1):
+        if k >= 0:
+            out.append(k)
+        elif k == DUP and i > 1:
+            out.append(out[-1])
+        else:
+            out.append(100 * ver + i)
+    return out
+
+
+# special values (code k of the model -> element k of the set of the history): objects a loader / dumper could take
+# for "no value", "end of the flow" or "end of the file" - None (the sentinel of iter(callable, None)), exception
+# instances, empty and falsy objects, singletons, strings / bytes that look like the end of a pickle.
+# A cache must store and replay each of them like any other value.
+# (the quick data profiles use code 0 only: the first elements differ, None comes most often)
+SPECIAL_SETS = ((None, EOFError(), b"", 0),
+                (b"", None, StopIteration(), False),
+                (None, Ellipsis, (), NotImplemented),
+                (0, "", None, []),
+                (EOFError(), 0.0, ".", None),
+                (None, b"\x80\x04N.", EOFError, frozenset()))
+
 STYLES = ("int", "pair", "str", "nested", "ctxonly", "alias_ctx", "alias_list", "falsy", "shared")
 # values that look like "nothing": a cache must store and replay them like any other value
 FALSY = (None, 0, "", {}, [], False, 0.0, (), b"", frozenset())
 ALIAS_STYLES = ("alias_ctx", "alias_list")
 
 
+def effective_style(style, scen):
+    """The "falsy" style identifies its values by version and position: not usable together with special / repeated
+    values (which look the same wherever they occur) - those histories use plain ints for their other values."""
+    if style == "falsy" and any(k != FRESH for codes in scen["vk"] for k in codes):
+        return "int"
+    return style
+
+
 def enc(a, style):
-    """Abstract value a (100 * version + index) -> concrete picklable flow value
-    (for the aliasing styles: the snapshot of the shared object at the moment it is yielded;
-    for "falsy": one of ten falsy objects, told apart by version and position)."""
+    """Abstract FRESH value a (100 * version + index) -> concrete picklable flow value
+    (for "falsy": one of ten falsy objects, told apart by version and position; the aliasing styles are
+    produced by Src itself)."""
     first = 100 * (a // 100) + 1
     if style == "falsy":
         return FALSY[(a // 100 + a % 100) % len(FALSY)]
@@ -151,10 +212,10 @@ NAME_PAIRS = ((u"c1.v1.ü.pkl", os.path.join("sub", "c2.pkl")),
 class Pipeline(object):
     """The real objects of one history (rebuilt by the `new` command; the files stay)."""
 
-    def __init__(self, directory, nc, shape, style, names=0, exc="exc"):
+    def __init__(self, directory, nc, shape, style, names=0, exc="exc", specials=0):
         self.dir, self.nc, self.shape, self.style = directory, nc, shape, style
         self.exc = exc
-        self.src = Src(style)
+        self.src = Src(style, specials)
         self.src.exc = exc
         self.taps = {}
         self.caches = []
@@ -245,33 +306,51 @@ class Pipeline(object):
         return cont
 
 
-def run_history(workdir, scen, cmds, style="int", protocol=2, drain=True, probe=1, keep=False, names=0, exc="exc"):
+def run_history(workdir, scen, cmds, style="int", protocol=2, drain=True, probe=1, keep=False, names=0, exc="exc",
+                specials=0):
     """Execute the commands of one history; return the list of recorded events.
 
-    cmds: dicts with cmd in new / drop / data / start / restart / next / raise / stop (as exported by Cache.tla);
+    cmds: dicts with cmd in new / drop / data / start / restart / next / raise / stop / release (as exported by
+    Cache.tla);
     `restart` runs the container object of the last `start` once more (same Sequence / Source / Split object);
-    `raise` is a `next` for which the element named by `a` was told at `start` to raise at that value.
+    `raise` is a `next` for which the element named by `a` was told at `start` to raise at that value (c = 1: the
+    consumer keeps the exception object, as error-collecting code does); `stop` with a = "keep": the consumer stops
+    pulling and keeps the iterator; `release` drops everything kept so far (the suspended generators are finalised).
     drain: a run still open at the end is continued to its end; probe: afterwards a fresh
-    non-recompute pipeline is run `probe` times to its end (reveals what the caches now hold).
+    non-recompute pipeline is run `probe` times to its end (reveals what the caches now hold) - while the kept
+    iterators / exceptions are still there, and once more after they were released.
     """
-    lens, nc, shape = scen["lens"], scen["nc"], scen["shape"]
+    kept = []
+    try:
+        return _run_history(workdir, scen, cmds, style, protocol, drain, probe, keep, names, exc, specials, kept)
+    finally:
+        # nothing suspended may survive the history (its files are removed, the next history uses the directory)
+        if kept:
+            del kept[:]
+            gc.collect()
+            if not keep:
+                _clean(workdir)
+
+
+def _run_history(workdir, scen, cmds, style, protocol, drain, probe, keep, names, exc, specials, kept):
+    vk, nc, shape = scen["vk"], scen["nc"], scen["shape"]
+    lens = [len(codes) for codes in vk]
     n = max(lens)
     d = workdir
     _clean(d)
-    pl = Pipeline(d, nc, shape, style, names=names, exc=exc)
+    pl = Pipeline(d, nc, shape, style, names=names, exc=exc, specials=specials)
     state = {"ver": 1, "gen": None, "rc": [False] * nc, "built": False, "npos": 0}
     events = []
     decode = {}
 
     def values(ver):
-        """Abstract values of data version ver; every value is identified at the moment it is yielded
-        by the repr of its snapshot (decode)."""
-        avals = []
-        for i in range(1, lens[min(ver, len(lens)) - 1] + 1):
-            a = 100 * ver + i
-            decode.setdefault(repr(pl.wrap(enc(a, style))), set()).add(a)
-            avals.append(a)
-        return avals
+        """Abstract values and value codes of data version ver; every value is identified at the moment it is
+        yielded by the repr of its snapshot (decode)."""
+        codes = vk[min(ver, len(vk)) - 1]
+        avals = abstract(codes, ver)
+        for a, x in zip(avals, pl.src.preview(avals, codes)):
+            decode.setdefault(repr(pl.wrap(x)), set()).add(a)
+        return avals, codes
 
     def identify(x):
         """Abstract value of a yielded object: by the repr of its snapshot; where several abstract values
@@ -284,11 +363,11 @@ def run_history(workdir, scen, cmds, style="int", protocol=2, drain=True, probe=
 
     def log(cmd, a, res, v=0, c=0):
         events.append({"cmd": cmd, "a": a, "res": res, "v": v, "c": c, "rc": list(state["rc"]),
-                       "pulled": pl.src.pulled,
+                       "nk": len(kept), "pulled": pl.src.pulled,
                        "wpre": pl.taps["pre"].work if "pre" in pl.taps else 0,
                        "wmid": pl.taps["mid"].work if "mid" in pl.taps else 0})
 
-    def do_next():
+    def do_next(keep_exc=False):
         g = state["gen"]
         try:
             x = next(g)
@@ -301,7 +380,11 @@ def run_history(workdir, scen, cmds, style="int", protocol=2, drain=True, probe=
             site = getattr(exc, "lenaverif_site", None)
             if site is not None:
                 # raised by a harness element (an Exception, a plain BaseException, KeyboardInterrupt or SystemExit)
-                log("next", site, "inj")
+                if keep_exc:
+                    # the caller keeps the exception (with its traceback: the frames of the raising element
+                    # and, through them, the suspended generators upstream of it)
+                    kept.append(exc)
+                log("next", site, "inj", c=1 if keep_exc else 0)
                 return "inj"
             if not isinstance(exc, Exception):
                 raise
@@ -318,15 +401,29 @@ def run_history(workdir, scen, cmds, style="int", protocol=2, drain=True, probe=
         try:
             if kind == "close":
                 g.close()
+            elif kind == "keep":
+                # the consumer just stops pulling and keeps the iterator: the run stays suspended
+                kept.append(g)
             del g
-            if kind != "close":
+            if kind == "abandon":
                 gc.collect(1)
         except Exception:   # noqa
             res = "exc"
         log("stop", kind, res)
 
+    def do_release():
+        res = "ok"
+        try:
+            # (reference counting finalises the suspended generators at once - the kept objects are in no
+            # reference cycle; the collection of the young generations is a cheap safety net)
+            del kept[:]
+            gc.collect(1)
+        except Exception:   # noqa
+            res = "exc"
+        log("release", "", res)
+
     def do_start(form, crash):
-        pl.src.avals = values(state["ver"])
+        pl.src.avals, pl.src.codes = values(state["ver"])
         state["npos"] = 0
         pl.src.pulled = 0
         pl.src.crash = None
@@ -372,7 +469,7 @@ def run_history(workdir, scen, cmds, style="int", protocol=2, drain=True, probe=
                 if name == "stop":
                     do_stop(c["a"])
                 else:
-                    do_next()
+                    do_next(keep_exc=(name == "raise" and c["c"] == 1))
             # else: the implementation ended the run earlier than this history assumed; skip
         else:
             if in_run:
@@ -392,6 +489,9 @@ def run_history(workdir, scen, cmds, style="int", protocol=2, drain=True, probe=
                 if state["ver"] < len(lens):
                     state["ver"] += 1
                     log("data", "", "ok")
+            elif name == "release":
+                if kept:
+                    do_release()
             elif name == "restart" and pl.cont is None:
                 pass     # (no container: the start that should have built one failed - reported there)
             elif name in ("start", "restart"):
@@ -418,6 +518,12 @@ def run_history(workdir, scen, cmds, style="int", protocol=2, drain=True, probe=
             do_start("seq", None)
             if state["gen"] is not None:
                 do_drain()
+        if kept:
+            # what the caches hold once the suspended runs are finalised
+            do_release()
+            do_start("seq", None)
+            if state["gen"] is not None:
+                do_drain()
     if not keep:
         _clean(d)
     return events
@@ -435,22 +541,39 @@ def _clean(d):
 
 
 def cover_paths(records):
-    """Transition records [lens, nc, shape, h] of the export -> distinct maximal command histories."""
-    paths = set()
+    """Transition records [vk, nc, shape, h] of the export -> distinct maximal command histories
+    (a history that is a proper prefix of another one is dropped).  One trie of interned commands per scenario:
+    the export of the thorough tier has several hundred thousand records."""
+    intern = {}
+    tries = {}
     for r in records:
-        paths.add((tuple(r["lens"]), r["nc"], json.dumps(r["shape"], sort_keys=True),
-                   tuple((e["cmd"], e["a"], tuple(e["rc"]), e["c"]) for e in r["h"])))
-    prefixes = set()
-    for n, nc, sh, h in paths:
-        for i in range(len(h)):
-            prefixes.add((n, nc, sh, h[:i]))
+        sk = (json.dumps(r["vk"]), r["nc"], json.dumps(r["shape"], sort_keys=True))
+        node = tries.setdefault(sk, {})
+        for e in r["h"]:
+            c = (e["cmd"], e["a"], tuple(e["rc"]), e["c"])
+            c = intern.setdefault(c, c)
+            nxt = node.get(c)
+            if nxt is None:
+                nxt = node[c] = {}
+            node = nxt
     out = []
-    for p in sorted(paths):
-        if p in prefixes:
-            continue
-        n, nc, sh, h = p
-        out.append(({"lens": list(n), "nc": nc, "shape": json.loads(sh)},
-                    [{"cmd": e[0], "a": e[1], "rc": list(e[2]), "c": e[3]} for e in h]))
+    for sk in sorted(tries):
+        vk, nc, sh = json.loads(sk[0]), sk[1], json.loads(sk[2])
+        # depth-first, children in sorted order: the maximal histories in lexicographic order
+        stack = [(tries[sk], ())]
+        found = []
+        while stack:
+            node, h = stack.pop()
+            if not node:
+                if h:
+                    found.append(h)
+                continue
+            for c in sorted(node, reverse=True):
+                stack.append((node[c], h + (c,)))
+        for h in found:
+            out.append(({"lens": [len(codes) for codes in vk], "vk": vk, "nc": nc, "shape": sh},
+                        [{"cmd": e[0], "a": e[1], "rc": list(e[2]), "c": e[3]} for e in h]))
+        tries[sk] = None
     return out
 
 
@@ -459,20 +582,21 @@ def cover_paths(records):
 # (each shard: replay its histories on the real code, then one TLC run over the recorded events)
 
 _AT_RE = re.compile(r'^<<"AT", (\d+), (\d+)>>', re.M)
-_FIELDS = ("lens", "nc", "shape", "ev")
+_FIELDS = ("vk", "nc", "shape", "ev")
 
 
 _KEEP = {"new": ("cmd", "res", "rc"), "drop": ("cmd", "res", "c"), "data": ("cmd",),
          "start": ("cmd", "res", "a", "pulled", "wpre", "wmid"),
          "restart": ("cmd", "res", "pulled", "wpre", "wmid"),
-         "next": ("cmd", "res", "a", "v", "pulled", "wpre", "wmid"),
-         "stop": ("cmd", "res", "a", "pulled", "wpre", "wmid")}
+         "next": ("cmd", "res", "a", "v", "c", "pulled", "wpre", "wmid"),
+         "stop": ("cmd", "res", "a", "pulled", "wpre", "wmid"),
+         "release": ("cmd", "res")}
 
 
 def _tlc_trace(workdir, cfg, recs, label):
     path = os.path.join(workdir, "%s.json" % label)
     with open(path, "w") as f:
-        json.dump([{"lens": r["lens"], "nc": r["nc"], "shape": r["shape"],
+        json.dump([{"vk": r["vk"], "nc": r["nc"], "shape": r["shape"],
                     "ev": [{k: e[k] for k in _KEEP[e["cmd"]]} for e in r["ev"]]} for r in recs], f)
     res = core.run_tlc("Trace_Cache", cfg, workdir, workers=1, env={"TRACE_FILE": path}, timeout=3000)
     os.remove(path)
@@ -529,11 +653,15 @@ def _shard_job(args):
     for it in items:
         gi, scen, cmds, style, protocol = it[:5]
         opts = it[5] if len(it) > 5 else {}
-        names, exc = opts.get("names", 0), opts.get("exc", "exc")
-        ev = run_history(os.path.join(d, "fs"), scen, cmds, style=style, protocol=protocol, names=names, exc=exc)
-        recs.append({"lens": scen["lens"], "n": max(scen["lens"]), "nc": scen["nc"], "shape": scen["shape"], "ev": ev,
+        names, exc, specials = opts.get("names", 0), opts.get("exc", "exc"), opts.get("specials", 0)
+        style = effective_style(style, scen)
+        ev = run_history(os.path.join(d, "fs"), scen, cmds, style=style, protocol=protocol, names=names, exc=exc,
+                         specials=specials)
+        lens = [len(codes) for codes in scen["vk"]]
+        recs.append({"lens": lens, "vk": scen["vk"], "n": max(lens), "nc": scen["nc"], "shape": scen["shape"], "ev": ev,
                      "style": style, "protocol": protocol, "cmds": cmds, "gi": gi,
-                     "names": list(NAME_PAIRS[names % len(NAME_PAIRS)][:scen["nc"]]), "exc": exc})
+                     "names": list(NAME_PAIRS[names % len(NAME_PAIRS)][:scen["nc"]]), "exc": exc,
+                     "specials": [repr(x) for x in SPECIAL_SETS[specials % len(SPECIAL_SETS)]]})
     # at most MAX_JVMS TLC processes at a time (memory), however many replay workers there are
     if _TLC_SEM is not None:
         _TLC_SEM.acquire()
@@ -574,6 +702,10 @@ def classify(rec, acc):
         built -= 1
     form = ev[built]["a"] if ev[built]["cmd"] == "start" else ""
     how = "hoisted" if "alter" in form else "plain"
+    # a stopped run was still kept suspended (iterator / exception kept by the caller) / had been released before
+    released = any(x["cmd"] == "release" for x in ev[:acc + 1])
+    if e.get("nk"):
+        how += "+held"
     before = ev[:start]
     interrupted_before = any(
         (x["cmd"] == "stop") or (x["cmd"] == "next" and x["res"] in ("inj", "exc")) for x in before)
@@ -586,8 +718,17 @@ def classify(rec, acc):
             full = rec["lens"][vals[0] // 100 - 1]
         prefix = len(vals) < full and all(v % 100 == i + 1 and v // 100 == vals[0] // 100
                                           for i, v in enumerate(vals))
+        # the value the flow should have continued with: a special value (None, ...) / the same object once more
+        nxt = set()
+        for ver, codes in enumerate(rec.get("vk", ()), 1):
+            av = abstract(codes, ver)
+            if len(vals) < len(av) and av[:len(vals)] == vals:
+                nxt.add("special" if codes[len(vals)] >= 0 else "repeated" if av[len(vals)] == (vals or [None])[-1]
+                        else "fresh")
         if prefix and interrupted_before and not e["pulled"]:
             kind = "truncated-cache-served"
+        elif nxt & {"special", "repeated"} and not e["pulled"]:
+            kind = "ended-at-%s-value" % sorted(nxt & {"special", "repeated"})[-1]
         elif len(vals) < full:
             kind = "ended-early"
         else:
@@ -605,8 +746,16 @@ def classify(rec, acc):
         kind = "start-failed" if e["res"] != "ok" else "upstream-touched-at-start"
     elif e["cmd"] == "drop":
         kind = "drop-failed"
+    elif e["cmd"] == "release":
+        kind = "release-failed"
     else:
         kind = "unexpected"
+    if released and e["cmd"] == "next" and not e["pulled"] and not kind.startswith("ended-at-"):
+        # a run that only loads, after suspended runs were finalised, does not replay what was stored (a wrong
+        # value, an early end or an unreadable file: one signature)
+        return "released-run-changed-cache:next:load"
+    if released and not e.get("nk"):
+        how += "+released"
     return "%s:%s:%s" % (kind, sig, how)
 
 
@@ -667,12 +816,13 @@ def check_histories(ctx, items, what):
             if key not in worst or (len(rec["ev"]), rec["gi"]) < (len(worst[key][0]["ev"]), worst[key][0]["gi"]):
                 worst[key] = (rec, acc)
         for r in o["samples"]:
-            ctx.sample({"recorded_history_%s" % what: {k: r[k] for k in ("lens", "nc", "shape", "style", "ev")}}, limit=4)
+            ctx.sample({"recorded_history_%s" % what: {k: r[k] for k in ("lens", "vk", "nc", "shape", "style", "ev")}}, limit=4)
     for key in sorted(worst):
         rec, acc = worst[key]
         ctx.violation("Cache:%s" % key, {
             "found_by": what,
-            "scenario": {"lens": rec["lens"], "nc": rec["nc"], "shape": rec["shape"], "style": rec["style"],
+            "scenario": {"lens": rec["lens"], "value_codes": rec["vk"], "special_values": rec["specials"],
+                         "nc": rec["nc"], "shape": rec["shape"], "style": rec["style"],
                          "protocol": rec["protocol"], "cache_names": rec["names"], "injected_exception": rec["exc"]},
             "commands": rec["cmds"],
             "accepted_events": rec["ev"][:max(acc, 0)],
